@@ -510,6 +510,10 @@ pub fn run(args: &Args) -> i32 {
             ev.merge(e);
             ev.eval();
             for (sig, what) in problems {
+                // what the server answers on the new port is C01's business (leg c01pty)
+                if sig.contains("no_service") || sig.contains("valid_frame_reply") {
+                    continue;
+                }
                 ev.violation(sig, what, json!({"leg": "rtu_server_reopen", "k": k}));
             }
         }
